@@ -317,9 +317,13 @@ func (h *c15hist) onPut(ht int64) {
 		c15reg.pending.Store(c15gid(), struct{}{})
 	case "ioods", "ioq4":
 		h.clearFaults(b)
-		if _, err := os.Lstat(ods); err == nil && out == "ioq4" {
-			// the ODS file of an earlier attempt is there: creation ends in "already exists" before the
-			// Q4 file is reached; an ordinary write
+		_, errO := os.Lstat(ods)
+		_, errQ := os.Lstat(q4)
+		if errO == nil || errQ == nil {
+			// a file of an earlier, failed attempt is still there: the creation then also meets "already
+			// exists", which sends the store into its validate-and-recreate path — where the write can
+			// legitimately succeed on the second creation. The outcome is not determined by the fault, so
+			// the fault is not injected: an ordinary write
 			out = "ok"
 			break
 		}
